@@ -673,3 +673,21 @@ Proof.
   intros H F W. rewrite (history_is_last_step old h x H). unfold fresh_output. rewrite F.
   eexists. split; [reflexivity|]. apply schema_roundtrip_settings; assumption.
 Qed.
+
+(* client() runs interleaved in the same process change nothing for the schema target *)
+Theorem process_ignores_clients h : forall old, run_process old h = run_history old (schema_steps h).
+Proof.
+  induction h as [|e r IH]; intro old; [reflexivity|].
+  destruct e as [x|]; simpl.
+  - unfold run_process, run_history in *. simpl. apply IH.
+  - unfold run_process in *. simpl. apply IH.
+Qed.
+
+Theorem process_is_last_step old h x h' : settings_ok (st_tm x) (st_sn x) = true ->
+  schema_steps h' = [] ->
+  run_process old (h ++ EvSchema x :: h') = Some (fresh_output x).
+Proof.
+  intros H E. rewrite process_ignores_clients.
+  unfold schema_steps in *. rewrite flat_map_app. simpl. fold (schema_steps h'). unfold schema_steps. rewrite E.
+  apply history_is_last_step. exact H.
+Qed.
